@@ -1714,6 +1714,36 @@ def rule_chunk_loop(chk):
                     verdict_ok = True
                 else:
                     undecided = "loop bound %s" % _ptext(bound)
+    # exactly once: a chunk end that is moved further out under a condition (`if short tail: i1 = N`) makes the chunk
+    # overlap the next one unless the loop stops there
+    end_names = {x.id for x in ast.walk(sl.upper) if isinstance(x, ast.Name)} if sl.upper is not None else set()
+    accumulates = any(isinstance(x, ast.AugAssign) and pf.base_name(x.target) in bufs for x in ast.walk(lp))
+    for n in ast.walk(lp):
+        if isinstance(n, ast.If) and n is not lp:
+            for b in n.body + n.orelse:
+                for a_ in ast.walk(b):
+                    if isinstance(a_, ast.Assign) and any(isinstance(t, ast.Name) and t.id in end_names for t in a_.targets):
+                        branch = n.body if any(a_ is y for x in n.body for y in ast.walk(x)) else n.orelse
+                        stops = any(isinstance(y, (ast.Break, ast.Return)) for x in branch for y in ast.walk(x))
+                        # ... or the iteration ends the loop afterwards: `if i1 == N: break` / `if i1 >= N: break`
+                        for later in lp.body:
+                            if isinstance(later, ast.If) and later.lineno > a_.lineno and isinstance(later.test, ast.Compare) \
+                                    and len(later.test.ops) == 1 and isinstance(later.test.ops[0], (ast.Eq, ast.GtE)) \
+                                    and any(isinstance(y, (ast.Break, ast.Return)) for x in later.body for y in ast.walk(x)):
+                                l_, r_ = later.test.left, later.test.comparators[0]
+                                if isinstance(l_, ast.Name) and l_.id in end_names and P.poly(r_) == P.poly(a_.value):
+                                    stops = True
+                        newend = P.poly(a_.value)
+                        within = D and _const_of(_padd(_padd(newend, P.poly(sl.lower), -1), D, -1))
+                        if stops or (within is not None and within is not False and within <= 0):
+                            continue
+                        if accumulates:
+                            problems.append("`%s` (under `%s`) moves the end of the chunk beyond start + stride while the "
+                                            "loop goes on: the next chunk starts at start + %s, inside this one, and the "
+                                            "samples in the overlap are accumulated twice" % (
+                                                pf.src(a_), pf.src(n.test)[:60], _ptext(D)))
+                        else:
+                            undecided = undecided or "conditional chunk end %s" % pf.src(a_)
     # accumulation
     for n in ast.walk(lp):
         if isinstance(n, ast.Assign):
@@ -2015,6 +2045,10 @@ def analyse(chk):
         _analyse_rules(chk)
     finally:
         chk.tree = orig_tree
+    chk.guard(lambda c_: core.include_findings(
+        c_, 'C15', files=['ciderpress/models/kernels.py'], rules=['lock-'],
+        why='a re-entrancy lock left set after a call (normal or exceptional exit) changes what every later call of '
+            'the same kernel object computes: KernelEvaluator results depend on the call history'))
 
 
 def _analyse_rules(chk):
@@ -2201,6 +2235,9 @@ def mutants(tree):
                "", expect="stale-identity"),
         Mutant("molecule snapshot compared without its _env component", NUMINT,
                "        new_data = (mol._atm, mol._bas, mol._env)\n", "        new_data = (mol._atm, mol._bas)\n", expect="reinit"),
+        Mutant("short tail folded into the chunk without leaving the loop", XE,
+               "            i1 = min(N, i0 + dn)\n",
+               "            i1 = min(N, i0 + dn)\n            if N - i1 < 100:\n                i1 = N\n", expect="chunk-loop"),
         Mutant("chunk result overwritten", XE, "res[i0:i1] += k.dot(self.alpha)", "res[i0:i1] = k.dot(self.alpha)",
                expect="chunk-loop"),
         Mutant("chunk loop skips the first chunk", XE, "for i0 in range(0, N, dn):", "for i0 in range(dn, N, dn):",
